@@ -90,6 +90,23 @@ def _accept_one(args):
         out.update(ok=False, tags=['HARNESS'], rule='acceptor-exception', expected='', got=traceback.format_exc()[-800:], pos=acc.pos)
     out['cov'] = {k: list(v) for k, v in acc.cov.items()}
     out['counts'] = acc.counts
+    # model-free invariant monitors (C03, C17)
+    from . import ledger
+    led = ledger.Ledger(spec, acc.ix, cfg)
+    lv = {'ok': True, 'status': None}
+    try:
+        if status == 'ok':
+            lv['status'] = led.run(recs)
+        else:
+            lv['status'] = 'skipped-crash'
+    except ledger.LedgerReject as e:
+        lv.update(ok=False, tags=sorted(e.tags), rule=e.rule, expected=str(e.expected)[:400], got=str(e.got)[:400], pos=e.pos)
+    except Exception:
+        import traceback
+        lv.update(ok=False, tags=['HARNESS'], rule='ledger-exception', expected='', got=traceback.format_exc()[-800:], pos=0)
+    lv['cov'] = {k: list(v) for k, v in led.cov.items()}
+    lv['snaps'] = led.n_snaps
+    out['ledger'] = lv
     return out
 
 
